@@ -310,3 +310,70 @@ func (n *Node) Leaves(prefix string, isRoot bool) map[string]*Node {
 	}
 	return out
 }
+
+// ---- cross-encoding twins (class predicate of findings C02-F1 / C14-F3 / C15-F1) ----
+
+// Twins records, for a sequence of stored trees that share one blob store, where each decoded leaf content was submitted
+// and under which transfer-encoding class (the three ways the store's hashing reads a part's text).
+type Twins struct {
+	leaf0 []int
+	pos   map[*Node]int
+	held  map[string][]heldLeaf
+}
+
+type heldLeaf struct {
+	pos int
+	enc string
+}
+
+func leavesInOrder(n *Node) []*Node {
+	if !n.Multi {
+		return []*Node{n}
+	}
+	var out []*Node
+	for _, c := range n.Children {
+		out = append(out, leavesInOrder(c)...)
+	}
+	return out
+}
+
+func encClass(cte string) string {
+	switch c := strings.ToLower(strings.TrimSpace(cte)); c {
+	case "base64", "quoted-printable":
+		return c
+	}
+	return "identity"
+}
+
+func contentKey(b []byte) string { return strings.TrimRight(string(b), "\r\n") }
+
+// NewTwins indexes the trees in the order they were stored.
+func NewTwins(trees []*Node) *Twins {
+	t := &Twins{pos: map[*Node]int{}, held: map[string][]heldLeaf{}}
+	n := 0
+	for _, tr := range trees {
+		t.leaf0 = append(t.leaf0, n)
+		for _, l := range leavesInOrder(tr) {
+			t.pos[l] = n
+			k := contentKey(l.Content)
+			t.held[k] = append(t.held[k], heldLeaf{n, encClass(l.CTE)})
+			n++
+		}
+	}
+	return t
+}
+
+// CrossEncoded: the store already held this leaf's decoded content (up to a final line break) under another
+// transfer-encoding class when the leaf was stored — from an earlier message or an earlier leaf of the same message.
+func (t *Twins) CrossEncoded(leaf *Node) bool {
+	p, ok := t.pos[leaf]
+	if !ok {
+		return false
+	}
+	for _, h := range t.held[contentKey(leaf.Content)] {
+		if h.pos < p && h.enc != encClass(leaf.CTE) {
+			return true
+		}
+	}
+	return false
+}
